@@ -34,6 +34,9 @@ CLAIMED = {
  "C14": ("fault_enumeration", "deterministic simulation: black-hole fault enumerated over heartbeat phase x transport x direction + seeded search; detection-time oracle on the fake clock",
          "Real eio server/client pairs on all three transport modes with ping values 1-3 s; the link is silently black-holed (both ways or one way) at swept and drawn phases of the heartbeat and of the upgrade; each side must report close with a ping-time-out/transport reason no later than its last received heartbeat + pingInterval + pingTimeout (+ overlapping injected stalls); live mode: 50-80 heartbeat periods with traffic at every phase offset, nobody may close.",
          "§7 C14", TB),
+ "C17": ("exploration", "deterministic simulation: exhaustive request matrix per world under seeded stalls; handshakes racing Server.Close; session-store linearizability (porcupine, set model); plus labelled enumeration of id generation",
+         "A raw HTTP peer sends the full matrix (6 methods x 5 EIO values x 4 transports x 4 sid kinds x b64 x j = 1920 requests, shuffled per world) to a real eio server holding one live and one closed session: requests with defects get HTTP 400 + a JSON error whose code is one of the defects present, create no session, leave the live session working (probed every 64 requests); requests without defect are served. closerace: 2-12 polling/WebSocket handshakes at instants around Server.Close with stalls on the store and server paths - afterwards every created session is closed, old sids answer no poll, new handshakes are refused. churn: concurrent open/close/probe histories checked for linearizability against a set, sids unique among live sessions. Side run (input enumeration): 2x10^5 (thorough 10^6) GenerateBase64ID calls distinct.",
+         "§7 C17", TB),
  "C19": ("exploration", "deterministic simulation: seeded yield-point stalls at lock boundaries + timer alignment; latency oracle; porcupine FIFO check",
          "Seeded search over interleavings of pollers/sender goroutine and producers on the real pollQueue/packetQueue (and full stack), with stalls injected exactly between emptiness check and wait; hand-off latency above the overlapping injected stalls is a lost wake-up.",
          "§7 C19", TB),
